@@ -1,11 +1,12 @@
 import Mutagen.Model.Lifecycle
+import Mutagen.Proofs.Lifecycle
 /-!
 # C11 — root deletion, root type change and one-sided emptying halt the session
 
 Property theorems only (helper lemmas live in `Mutagen.Proofs.Lifecycle`).
 -/
 namespace Mutagen.Properties.C11
-open Mutagen.Model
+open Mutagen.Model Mutagen.Proofs.Reconcile Mutagen.Proofs.Lifecycle
 
 /-- `oneEndpointEmptiedRoot` is exactly the statement's situation: the
 ancestor root is a directory with at least two entries, both endpoint roots are
@@ -137,6 +138,47 @@ theorem halting_cycle_halts_loop (mode : Mode) (portable : Bool) (eps : Endpoint
     runStep mode portable eps (.synchronizing a) (.trigger α β) =
       (.halted h (cycle mode portable eps a α β).ancestor, (cycle mode portable eps a α β).events) := by
   simp [runStep, hh]
+
+/-- `root_change_is_root_transition`: a change whose path is not the root path
+can be applied only to an existing root and leaves the root's scalar fields (in
+particular its kind) as they are — so a root can only be deleted or retyped by a
+change at the root path `[]`, which is what `IsRootDeletion` / `IsRootTypeChange`
+look at. -/
+theorem root_change_is_root_transition (r r' : Option Entry) (c : Change) (hp : c.path ≠ [])
+    (h : applyChange r c = .ok r') :
+    r.isSome = true ∧ r'.map Entry.props = r.map Entry.props :=
+  ⟨(applyChange_nonroot r r' c hp h).2, (applyChange_nonroot r r' c hp h).1⟩
+
+/-- `root_checks_complete`: for every mode and every (ancestor, alpha, beta),
+for either endpoint: if the changes planned for the endpoint contain neither a
+root deletion nor a root type change (so the cycle does not halt for them),
+then applying them exactly to the endpoint's content keeps an existing root in
+existence, with the same kind. The two checks therefore catch *every* plan that
+would delete or retype a root. -/
+theorem root_checks_complete (mode : Mode) (A α β : Option Entry) (toAlpha : Bool) (x' : Option Entry) :
+    let cs := if toAlpha then (Reconcile A α β mode).alpha else (Reconcile A α β mode).beta
+    let x := if toAlpha then α else β
+    containsRootDeletion cs = false → containsRootTypeChange cs = false →
+    apply x cs = .ok x' → x.isSome = true →
+    x'.isSome = true ∧ x'.map Entry.kind = x.map Entry.kind := by
+  intro cs x hd ht ha hx
+  have hcs : cs = side toAlpha (reconcile mode [] A α β) := by
+    simp only [cs, side, Reconcile]
+  rcases reconcile_root_cases mode A α β toAlpha with h | ⟨c, h1, h2, h3⟩
+  · have := apply_nonroot cs (by rw [hcs]; exact h) x x' ha
+    simp only [oprops] at this
+    cases hx' : x' <;> cases hxx : x <;> simp_all [Entry.kind]
+  · rw [← hcs] at h1
+    rw [h1] at hd ht ha
+    simp only [apply, applyChange, h2] at ha
+    injection ha with ha
+    subst ha
+    simp only [containsRootDeletion, containsRootTypeChange, Change.isRootDeletion,
+      Change.isRootTypeChange, h2, List.isEmpty_nil, Bool.true_and] at hd ht
+    have h3' : oprops c.old = oprops x := h3
+    simp only [oprops] at h3'
+    cases hold : c.old <;> cases hnew : c.new <;> cases hxx : x <;>
+      simp_all [Entry.kind]
 
 /-- Non-vacuity: a concrete one-sided emptying halts. -/
 example :
